@@ -38,7 +38,7 @@ AYf == [simple |-> {Eff, IncA, Y(VarA)} \cup YFs,
 \* delegation family without the recursive delegate: bounded delegation depth (C17 loop cases)
 YFsL == {YF(g, arg) : g \in 2..3, arg \in {[k |-> "lit", v |-> 1], VarA}}
 AYfL == [AYf EXCEPT !.simple = {Eff, IncA, Y(VarA)} \cup YFsL, !.posts = {None} \cup YFsL]
-APanic == [ACtl EXCEPT !.simple = @ \cup {[k |-> "panic"]}]
+APanic == [ACtl EXCEPT !.simple = @ \cup {[k |-> "panic"], Y([k |-> "b1", e |-> [k |-> "lit", v |-> 7]])}]
 \* the control-flow family with every switch form: default first / no default, type switch, tag-less switch
 \* effects everywhere, effectful yield expressions (C02: the interleaving is the observation)
 ObsA == [k |-> "obs", id |-> 0, n |-> "a"]
@@ -84,9 +84,17 @@ HasKS(s, kk) == s.k = kk \/ CASE s.k = "if" -> HasK(s.a, kk) \/ HasK(s.b, kk)
                               [] s.k \in {"block", "for"} -> HasK(s.body, kk)
                               [] OTHER -> FALSE
 HasK(b, kk) == \E j \in 1..Len(b) : HasKS(b[j], kk)
+RECURSIVE HasBoom(_), HasBoomS(_)
+HasBoomS(s) == (s.k = "yield" /\ s.v.k = "b1")
+               \/ CASE s.k = "if" -> HasBoom(s.a) \/ HasBoom(s.b)
+                     [] s.k = "switch" -> \E j \in 1..Len(s.cases) : HasBoom(s.cases[j].body)
+                     [] s.k = "block" -> HasBoom(s.body)
+                     [] s.k = "for" -> HasBoom(s.body) \/ (~IsNone(s.init) /\ HasBoomS(s.init)) \/ (~IsNone(s.post) /\ HasBoomS(s.post))
+                     [] OTHER -> FALSE
+HasBoom(b) == \E j \in 1..Len(b) : HasBoomS(b[j])
 \* a function without a Yield is not a generator for the tool (it would run eagerly: C13's business)
 IsRangeFam == Family \in {"range", "rangex"}
-Member(p) == /\ HasY(p) /\ (Family = "scope" => ScopeOK(p, 0)) /\ (Family = "panic" => HasK(p, "panic"))
+Member(p) == /\ HasY(p) /\ (Family = "scope" => ScopeOK(p, 0)) /\ (Family = "panic" => (HasK(p, "panic") \/ HasBoom(p)))
              /\ (IsRangeFam => HasK(p, "range"))
 \* range family: every program ends with an observation of the function-level kk, vv and a final yield
 \* (so range loops whose bodies do not yield are still inside a generator); a range loop without a
